@@ -1,0 +1,58 @@
+//go:build verif
+
+// Contracts for the verification engine in /verif (comment-only file; it is
+// compiled only with the build tag "verif" and contains no code).
+
+package auth
+
+// ---- C16: no application traffic before a successful authentication exchange ------
+// ghost: the last message PreReceive handed back, the verdict of the user's checker
+// function, the outcome of the last PreSend, and how many of each happened
+//@ ghost global lastRecv iface
+//@ ghost global preReceives int
+//@ ghost global preSends int
+//@ ghost global lastPreSendOK bool
+//@ ghost global lastCheckerOK bool
+//@ ghost global lastSentStatus int
+//@ iface erpc.PreSession.PreReceive
+//@   flags libframe
+//@   modifies ghost.lastRecv, ghost.preReceives
+//@   ghostset ghost.lastRecv = result
+//@   ghostset ghost.preReceives = old(ghost.preReceives) + 1
+//@   ensures[message] istype(result, type(*socket.message)) && as(result, type(*socket.message)) != nil
+//@ iface erpc.PreSession.PreSend
+//@   params self mtype serviceMethod body stat setting
+//@   flags libframe
+//@   modifies ghost.preSends, ghost.lastPreSendOK, ghost.lastSentStatus
+//@   ghostset ghost.preSends = old(ghost.preSends) + 1
+//@   ghostset ghost.lastPreSendOK = statOK(result)
+//@   ghostset ghost.lastSentStatus = stat
+// the user's checker: may call the receive-once function it is given (assumption:
+// it calls nothing else of the framework); its verdict is recorded
+//@ iface dynamic:plugin/auth.Checker
+//@   flags libframe may-panic
+//@   modifies ghost.lastRecv, ghost.preReceives, ghost.lastCheckerOK
+//@   ghostset ghost.lastCheckerOK = statOK(result.1)
+
+// receive-once: OK only if this very call received an AUTH_CALL frame with an OK
+// status; a second call receives nothing and reports the usage error
+//@ func (*authCheckerPlugin).PostAccept$1
+//@   property C16
+//@   flags libframe
+//@   requires sentinelsIntact() && MultiRecvErr.code == erpc.CodeInternalServerError && sess != nil && (called == 0 || called == 1)
+//@   modifies ghost.lastRecv, ghost.preReceives, called
+//@   ensures[ok-only-after-auth-call] statOK(result) ==> ghost.preReceives == old(ghost.preReceives) + 1 && as(ghost.lastRecv, type(*socket.message)).mtype == erpc.TypeAuthCall && statOK(as(ghost.lastRecv, type(*socket.message)).status)
+//@   ensures[at-most-one-exchange] old(called) != 0 ==> result == MultiRecvErr && ghost.preReceives == old(ghost.preReceives)
+//@   ensures[marks-used] called == 1
+
+// the accept hook: the connection is admitted only if the checker accepted it and
+// the AUTH_REPLY went out; exactly one AUTH_REPLY is sent whatever the verdict,
+// and it carries the checker's verdict
+//@ func (*authCheckerPlugin).PostAccept
+//@   property C16
+//@   flags libframe
+//@   requires sentinelsIntact() && MultiRecvErr.code == erpc.CodeInternalServerError && sess != nil
+//@   modifies ghost.lastRecv, ghost.preReceives, ghost.lastCheckerOK, ghost.preSends, ghost.lastPreSendOK, ghost.lastSentStatus
+//@   ensures[admitted-only-if-authenticated] a.checkerFunc != nil && statOK(result) ==> ghost.lastCheckerOK && ghost.lastPreSendOK
+//@   ensures[one-auth-reply] a.checkerFunc != nil ==> ghost.preSends == old(ghost.preSends) + 1
+//@   ensures[verdict-on-the-wire] a.checkerFunc != nil ==> statOK(ghost.lastSentStatus) == ghost.lastCheckerOK
